@@ -193,6 +193,127 @@ func init() {
 				smu.Unlock()
 				mu.Unlock()
 				return strings.Join(out, " ; ")
+			case "stopreport":
+				// a stop request reaches the finisher while its workers are reporting finished seeds to a source that reads slowly:
+				// every accepted seed must end up reported, or still be tracked by the reactor (so that the source can hand it back)
+				if started {
+					finisher.Stop()
+					reactor.Stop()
+					started = false
+				}
+				w := num(in, "workers", 2)
+				n := num(in, "n", 8)
+				every := time.Duration(num(in, "readEveryMs", 40)) * time.Millisecond
+				config.Get().WorkersCount = w
+				rO := make(chan *models.Item, w)
+				fI := make(chan *models.Item, w)
+				fin := make(chan *models.Item, w)
+				prod := make(chan *models.Item, w)
+				if err := reactor.Start(w, rO); err != nil {
+					return "harness-error " + err.Error()
+				}
+				if err := finisher.Start(fI, fin, prod); err != nil {
+					return "harness-error " + err.Error()
+				}
+				var lmu sync.Mutex
+				acked, accepted := map[string]int{}, map[string]bool{}
+				stopRead := make(chan struct{})
+				readerDone := make(chan struct{})
+				go func() {
+					defer close(readerDone)
+					for {
+						select {
+						case it := <-fin:
+							lmu.Lock()
+							acked[it.GetID()]++
+							lmu.Unlock()
+							time.Sleep(every)
+						case <-prod:
+						case <-stopRead:
+							return
+						}
+					}
+				}()
+				fwdDone := make(chan struct{})
+				go func() {
+					for {
+						select {
+						case it := <-rO:
+							select {
+							case fI <- it:
+							case <-fwdDone:
+								return
+							}
+						case <-fwdDone:
+							return
+						}
+					}
+				}()
+				for i := 0; i < n; i++ {
+					u := &models.URL{Raw: fmt.Sprintf("http://site.example/sr/%d", i)}
+					_ = u.Parse()
+					it := models.NewItem(fmt.Sprintf("sr%d", i), u, "")
+					it.SetSource(models.ItemSourceQueue)
+					it.SetStatus(models.ItemCompleted)
+					go func(it *models.Item) {
+						if err := reactor.ReceiveInsert(it); err == nil {
+							lmu.Lock()
+							accepted[it.GetID()] = true
+							lmu.Unlock()
+						}
+					}(it)
+				}
+				time.Sleep(time.Duration(num(in, "beforeStopMs", 100)) * time.Millisecond)
+				reactor.Freeze()
+				stopped := make(chan struct{})
+				go func() { finisher.Stop(); close(stopped) }()
+				hung := false
+				select {
+				case <-stopped:
+				case <-time.After(10 * time.Second):
+					hung = true
+				}
+				time.Sleep(200 * time.Millisecond)
+				close(stopRead)
+				<-readerDone
+				close(fwdDone)
+				// whatever still sits in a channel was not lost
+				inChan := map[string]bool{}
+				for _, c := range []chan *models.Item{rO, fI, fin} {
+					for drained := false; !drained; {
+						select {
+						case it := <-c:
+							inChan[it.GetID()] = true
+						default:
+							drained = true
+						}
+					}
+				}
+				tracked := map[string]bool{}
+				for _, id := range reactor.GetStateTable() {
+					tracked[id] = true
+				}
+				var dropped, twice []string
+				lmu.Lock()
+				na := 0
+				for id := range accepted {
+					if acked[id] > 1 {
+						twice = append(twice, id)
+					}
+					if acked[id] > 0 {
+						na++
+						continue
+					}
+					if !tracked[id] && !inChan[id] {
+						dropped = append(dropped, id)
+					}
+				}
+				nacc := len(accepted)
+				lmu.Unlock()
+				sort.Strings(dropped)
+				sort.Strings(twice)
+				reactor.Stop()
+				return fmt.Sprintf("accepted=%d acked=%d tracked=%d stopHung=%v dropped=%s twice=%s", nacc, na, len(tracked), hung, strings.Join(dropped, ","), strings.Join(twice, ","))
 			case "close":
 				if started {
 					finisher.Stop()
